@@ -56,6 +56,7 @@ type Exec struct {
 	retPaths    int
 	entrySt     *State // state right after the preconditions were assumed (for covers)
 	usedExterns map[string]bool
+	callsOf     map[string]map[string]bool // function under contract -> contracts of functions under contract (and lemmas) its proof applies
 	usedRelies  map[string]bool
 	paramVals   map[string][]*Val
 	pdomCache   map[*ssa.Function]map[*ssa.BasicBlock]*ssa.BasicBlock
@@ -66,7 +67,7 @@ type Exec struct {
 }
 
 func newExec(ld *Loaded) *Exec {
-	return &Exec{ld: ld, ct: ld.ct, tags: map[string]int{}, preludeSeen: map[string]bool{}, loops: map[*ssa.Function]*loopInfo{}, maxPaths: 4000, oblCount: map[string]int{}, usedExterns: map[string]bool{}, usedRelies: map[string]bool{}, paramVals: map[string][]*Val{}, pdomCache: map[*ssa.Function]map[*ssa.BasicBlock]*ssa.BasicBlock{}, opaqueReads: map[string]*opaqueRead{}}
+	return &Exec{ld: ld, ct: ld.ct, tags: map[string]int{}, preludeSeen: map[string]bool{}, loops: map[*ssa.Function]*loopInfo{}, maxPaths: 4000, oblCount: map[string]int{}, usedExterns: map[string]bool{}, usedRelies: map[string]bool{}, callsOf: map[string]map[string]bool{}, paramVals: map[string][]*Val{}, pdomCache: map[*ssa.Function]map[*ssa.BasicBlock]*ssa.BasicBlock{}, opaqueReads: map[string]*opaqueRead{}}
 }
 
 func (ex *Exec) fail(f string, a ...any) {
@@ -792,6 +793,10 @@ func (ex *Exec) verifyFunc(fn *ssa.Function, c *Contract) {
 		if lm == nil {
 			ex.fail("unknown lemma %s", ln)
 		}
+		if ex.callsOf[c.Key] == nil {
+			ex.callsOf[c.Key] = map[string]bool{}
+		}
+		ex.callsOf[c.Key]["lemma:"+ln] = true
 		lenv := &SpecEnv{ex: ex, st: st, vars: map[string]*Val{}, cur: st, old: entryView{st}, pkg: ex.ld.typesPkg(lm.Pkg), nextOld: st.next0}
 		st.assume(lenv.eval(lm.E).T)
 	}
@@ -900,6 +905,13 @@ func (ex *Exec) checkFrame(st *State, c *Contract, env *SpecEnv) {
 	oldEnv := *env
 	oldEnv.cur = entryView{st}
 	targets := ex.resolveTargets(&oldEnv, c.Modifies)
+	ex.frameObligations(st, targets, c.Tags, "frame", "only locations in the modifies clause (or freshly allocated ones) change in ")
+}
+
+// frameObligations: every heap component equals its value at function entry except at the targets (and at
+// fresh or nil indices).
+func (ex *Exec) frameObligations(st *State, targets []target, tags []string, class string, what string) {
+	c := struct{ Tags []string }{tags}
 	for _, key := range st.heapKeys() {
 		cur := st.heap[key]
 		if strings.HasPrefix(key, "V:") {
@@ -911,7 +923,7 @@ func (ex *Exec) checkFrame(st *State, c *Contract, env *SpecEnv) {
 				}
 			}
 			if !allowed {
-				ex.oblige(st, "frame", strings.TrimPrefix(key, "V:"), mkEq(cur, init), c.Tags, "global "+key+" is not in the modifies clause", token.NoPos)
+				ex.oblige(st, class, strings.TrimPrefix(key, "V:"), mkEq(cur, init), c.Tags, "global "+key+" is not in the modifies clause", token.NoPos)
 			}
 			continue
 		}
@@ -922,9 +934,9 @@ func (ex *Exec) checkFrame(st *State, c *Contract, env *SpecEnv) {
 		idx, decls := ex.frameIdx(key, cur.Sort, false)
 		goal := ex.frameFormula(key, cur, init, targets, st.next0, idx)
 		lines := append(append([]string(nil), st.lines...), decls...)
-		name := fmt.Sprintf("%s#frame:%s", shortFn(ex.topKey), shortFn(strings.TrimPrefix(strings.TrimPrefix(key, "F:"), "G:")))
+		name := fmt.Sprintf("%s#%s:%s", shortFn(ex.topKey), class, shortFn(strings.TrimPrefix(strings.TrimPrefix(key, "F:"), "G:")))
 		ex.oblCount[name]++
-		o := &Obligation{Name: name, Fn: ex.topKey, Class: "frame", Tags: c.Tags, Lines: lines, Goal: goal, Desc: "only locations in the modifies clause (or freshly allocated ones) change in " + key, Trace: append([]string(nil), st.trace...), Inst: ex.oblCount[name]}
+		o := &Obligation{Name: name, Fn: ex.topKey, Class: "frame", Tags: c.Tags, Lines: lines, Goal: goal, Desc: what + key, Trace: append([]string(nil), st.trace...), Inst: ex.oblCount[name]}
 		ex.obls = append(ex.obls, o)
 	}
 }
